@@ -13,6 +13,7 @@ pub enum Site {
     IterLen,
     IntoIter,
     Closure,
+    IterDrop,
 }
 
 impl Site {
@@ -28,6 +29,7 @@ impl Site {
             "len" => Site::IterLen,
             "into_iter" => Site::IntoIter,
             "closure" => Site::Closure,
+            "iter_drop" => Site::IterDrop,
             _ => return None,
         })
     }
@@ -36,7 +38,7 @@ impl Site {
 thread_local! {
     static ARMED: Cell<Option<(Site, u32)>> = const { Cell::new(None) };
     static FIRED: Cell<bool> = const { Cell::new(false) };
-    static CALLS: Cell<[u32; 10]> = const { Cell::new([0; 10]) };
+    static CALLS: Cell<[u32; 11]> = const { Cell::new([0; 11]) };
 }
 
 pub struct InjectedPanic;
@@ -56,7 +58,7 @@ pub fn fired() -> bool {
 }
 
 pub fn reset_counts() {
-    CALLS.with(|c| c.set([0; 10]));
+    CALLS.with(|c| c.set([0; 11]));
 }
 
 pub fn calls(site: Site) -> u32 {
